@@ -118,14 +118,47 @@ proof fn lemma_f_exists(s: Seq<LeapSecond>, u: int, i: int)
     }
 }
 
-proof fn lemma_sound_push(z: TimeZoneRef, q: FindQuery, rs: Seq<FoundDateTimeKind>, k: FoundDateTimeKind)
+proof fn lemma_normals_sound_push(z: TimeZoneRef, q: FindQuery, rs: Seq<FoundDateTimeKind>, k: FoundDateTimeKind)
     requires
-        all_sound(z, q, rs),
+        normals_sound(z, q, rs),
         normal_sound(z, q, k),
+    ensures
+        normals_sound(z, q, rs.push(k)),
+{
+}
+
+proof fn lemma_gaps_sound_push(z: TimeZoneRef, q: FindQuery, rs: Seq<FoundDateTimeKind>, k: FoundDateTimeKind)
+    requires
+        gaps_sound(z, q, rs),
         gap_sound(z, q, k),
     ensures
-        all_sound(z, q, rs.push(k)),
+        gaps_sound(z, q, rs.push(k)),
 {
+}
+
+proof fn lemma_has_gap_push(z: TimeZoneRef, q: FindQuery, i: int, rs: Seq<FoundDateTimeKind>, k: FoundDateTimeKind)
+    requires
+        has_gap(z, q, i, rs) || table_gap(z, q, i, k),
+    ensures
+        has_gap(z, q, i, rs.push(k)),
+{
+    if has_gap(z, q, i, rs) {
+        let j = choose|j: int| 0 <= j < rs.len() && #[trigger] table_gap(z, q, i, rs[j]);
+        assert(table_gap(z, q, i, rs.push(k)[j]));
+    } else {
+        assert(table_gap(z, q, i, rs.push(k)[rs.len() as int]));
+    }
+}
+
+proof fn lemma_gaps_push(z: TimeZoneRef, q: FindQuery, rs: Seq<FoundDateTimeKind>, n: int, k: FoundDateTimeKind)
+    requires
+        gaps_found(z, q, rs, n),
+    ensures
+        gaps_found(z, q, rs.push(k), n),
+{
+    assert forall|i: int| 0 <= i < n && #[trigger] gap_cond(z, q, i) implies has_gap(z, q, i, rs.push(k)) by {
+        lemma_has_gap_push(z, q, i, rs, k);
+    }
 }
 
 // the candidate of a fixed trailing rule: at or after the last transition's instant (or with an empty table) the lookup answers the rule's type
@@ -195,12 +228,12 @@ proof fn lemma_slots_next(z: TimeZoneRef, q: FindQuery, rs: Seq<FoundDateTimeKin
 
 proof fn lemma_order_push(rs: Seq<FoundDateTimeKind>, k: FoundDateTimeKind, b: int, b2: int)
     requires
-        entries_ordered(rs),
         entries_below(rs, b),
         b <= entry_key(k) <= b2,
         k is Normal ==> entry_key(k) < b2,
     ensures
-        entries_ordered(rs.push(k)),
+        entries_ascending(rs) ==> entries_ascending(rs.push(k)),
+        normals_increasing(rs) ==> normals_increasing(rs.push(k)),
         entries_below(rs.push(k), b2),
 {
 }
